@@ -7,9 +7,18 @@ import gin
 from vf import rt
 from vf import world
 
+# entry kinds of one nesting level.  0-9 are the kinds of the first version; 10-15 come from the
+# vocabulary review (names the validation accepts / rejects by other routes).
 KINDS = ["'a'", "'b/c'", "['x', 'y']", 'None', "''", "'1bad'", '42', "['ok', 'not ok']",
-         "'a/'", '[]']
-ENTRY = ['a', 'b/c', ['x', 'y'], None, '', '1bad', 42, ['ok', 'not ok'], 'a/', []]
+         "'a/'", '[]',
+         "'a.b'", "['a', 1]", '[None]', "['a/b']", "('x', 'y')", "b'a'"]
+ENTRY = ['a', 'b/c', ['x', 'y'], None, '', '1bad', 42, ['ok', 'not ok'], 'a/', [],
+         'a.b', ['a', 1], [None], ['a/b'], ('x', 'y'), b'a']
+NK = len(ENTRY)
+# The statement does not fix the exception type of an invalid entry.  The kinds of the first version must
+# raise ValueError as they always had to; for the new invalid kinds TypeError is accepted as well (today
+# re.match raises it for a non-string list member, kinds 11 and 12, AFTER the scope was pushed).
+TYPE_ERROR_OK = (11, 12, 13, 14, 15)
 
 
 class Boom(Exception):
@@ -19,7 +28,7 @@ class Boom(Exception):
 def model_enter(cur, kind):
   """Reference: (valid?, new active scope) for entering ENTRY[kind] from `cur`."""
   e = ENTRY[kind]
-  if kind in (0, 1):
+  if kind in (0, 1, 10):
     return True, cur + e.split('/')
   if kind in (2, 9):
     return True, list(e)
@@ -28,105 +37,370 @@ def model_enter(cur, kind):
   return False, cur
 
 
-def run_level(level, kinds, exits, depth, leaf, log):
-  """Enters level `level`; returns False as soon as an observation disagrees."""
+# ---- scoped bindings observed at every level ("the scope, or the scoped bindings, ... observes") ----
+BIND = {(): {'b': 4}, ('a',): {'a': 1}, ('a', 'b'): {'b': 2}, ('x',): {'a': 3}, ('q', 'r'): {'a': 7},
+        ('a.b',): {'a': 8}}
+BASE_CFG = ['a/vw.dflt.a = 1', 'a/b/vw.dflt.b = 2', 'x/vw.dflt.a = 3', 'vw.dflt.b = 4',
+            'q/r/vw.dflt.a = 7', 'q/vw.Kinit.a = 6', 'q/vw.Kmeth.meth.a = 8']
+REF_CFG = ['vw.cons.p = @q/r/vw.src()', 'vw.cons.q = @t/vw.src', 'q/r/vw.src.v = 11', 't/vw.src.v = 12']
+MAC_CFG = ['m = 5', 'vw.cons.p = %m', 'vw.cons.q = %vwc09.K']
+
+
+def model_bindings(scope, inherit=True):
+  """Reference for the bindings of vw.dflt that apply under the active scope `scope`."""
+  out = {}
+  if not inherit:
+    out.update(BIND.get(tuple(scope), {}))
+    return out
+  for i in range(len(scope) + 1):
+    out.update(BIND.get(tuple(scope[:i]), {}))
+  return out
+
+
+def model_dflt(scope):
+  b = model_bindings(scope)
+  return (b.get('a', world.DA), b.get('b', world.DB))
+
+
+def _setup_world(leaf):
+  world.fresh()
+  gin.parse_config(BASE_CFG)
+  gin.bind_parameter('a.b/vw.dflt.a', 8)   # a dotted scope name cannot be written in config text
+  if leaf in (5, 6):
+    gin.parse_config(REF_CFG)
+  if leaf == 7:
+    gin.constant('vwc09.K', 7)
+    gin.parse_config(MAC_CFG)
+  world.RAISE[0] = None
+
+
+def _obs(scope, st, where):
+  """The unscoped probe must receive exactly the bindings of `scope` and run under it."""
+  with rt.native():
+    r = world.dflt()
+    if r != model_dflt(scope) or world.LOG[-1][3] != scope or gin.current_scope() != scope:
+      st['bad'] = 'dflt() %s: got %r under %r, the scope %r gives %r' % (
+          where, r, world.LOG[-1][3], scope, model_dflt(scope))
+      return False
+  return True
+
+
+LEAVES = ['none', "get_configurable('q/r/vw.dflt')()", 'unscoped dflt() + get_bindings',
+          "get_configurable('q/r/vw.boom')() raising, caught at once",
+          'unscoped outer2() (enters deep, calls outer1 -> boom) raising, caught at once',
+          "get_configurable('q/r/vw.outer2')() raising, caught at level 0",
+          'cons() with p = @q/r/vw.src() and q = @t/vw.src (called there and later)',
+          'cons() with a macro and a constant',
+          'get_configurable(<function>) / (unscoped selector): scope captured at lookup, called there and later',
+          "classes: 'q/vw.Kinit', 'q/vw.Kreg', 'q/vw.Kmeth' instance whose meth() runs there and later"]
+NL = len(LEAVES)
+
+
+def run_leaf(leaf, before, st):
+  """The innermost action.  Returns False on a disagreement; may raise Boom (leaf 5)."""
+  if leaf == 1:      # a scoped configurable call replaces the scope inside, restores after
+    r = gin.get_configurable('q/r/vw.dflt')()
+    if world.LOG[-1][3] != ['q', 'r'] or r != model_dflt(['q', 'r']):
+      return rt.no('scoped call ran under %r and returned %r' % (world.LOG[-1][3], r))
+  elif leaf == 2:    # an unscoped probe sees exactly the active scope and its bindings
+    r = world.dflt()
+    if world.LOG[-1][3] != before or r != model_dflt(before):
+      return rt.no('unscoped probe ran under %r and returned %r, active %r' % (world.LOG[-1][3], r, before))
+    if gin.get_bindings('vw.dflt') != model_bindings(before):
+      return rt.no('get_bindings under %r' % (before,))
+    if gin.get_bindings('vw.dflt', inherit_scopes=False) != model_bindings(before, False):
+      return rt.no('get_bindings(inherit_scopes=False) under %r' % (before,))
+  elif leaf in (3, 4):   # the exception is born inside the (scoped) call
+    world.RAISE[0] = Boom('leaf')
+    try:
+      if leaf == 3:
+        gin.get_configurable('q/r/vw.boom')()
+      else:
+        world.outer2()
+      return rt.no('the exception raised inside the configurable was swallowed')
+    except Boom:
+      pass
+  elif leaf == 5:    # ... and crosses the scoping wrapper, 'deep' and every level of the nest in one throw
+    world.RAISE[0] = Boom('leaf')
+    st['flying'] = 'boom'
+    st['catch_at'] = 0
+    gin.get_configurable('q/r/vw.outer2')()
+    return rt.no('the exception raised inside the configurable was swallowed')
+  elif leaf == 6:    # scoped references written in config text
+    n = len(world.SRC_CALLS)
+    p, q = world.cons()
+    if p != [11] or world.SRC_CALLS[n:] != [(11, ['q', 'r'])] or world.LOG[-1][3] != before:
+      return rt.no('@q/r/vw.src() gave %r, calls %r, cons under %r' % (p, world.SRC_CALLS[n:], world.LOG[-1][3]))
+    if gin.current_scope() != before:
+      return rt.no('scope after evaluating a scoped reference')
+    if q() != [12] or world.SRC_CALLS[n + 1:] != [(12, ['t'])]:
+      return rt.no('@t/vw.src called under %r: calls %r' % (before, world.SRC_CALLS[n + 1:]))
+    st['late'].append(('ref', q, None))
+  elif leaf == 7:    # %macro / %constant are evaluated under a replacing list scope
+    r = world.cons()
+    if r != (5, 7) or world.LOG[-1][3] != before:
+      return rt.no('macro / constant under %r gave %r (cons ran under %r)' % (before, r, world.LOG[-1][3]))
+  elif leaf == 8:    # without a scope in the argument, the scope active at lookup time is attached
+    for f in (gin.get_configurable(world.dflt), gin.get_configurable('vw.dflt')):
+      r = f()
+      if world.LOG[-1][3] != before or r != model_dflt(before):
+        return rt.no('looked up and called under %r: ran under %r, got %r' % (before, world.LOG[-1][3], r))
+      st['late'].append(('fn', f, list(before)))
+  elif leaf == 9:    # scoped class references: constructor and registered methods
+    o = gin.get_configurable('q/vw.Kinit')()
+    if world.LOG[-1] != ('Kinit', (6, world.DB), {}, ['q']) or o.got != (6, world.DB):
+      return rt.no('q/vw.Kinit: %r' % (world.LOG[-1],))
+    if gin.current_scope() != before:
+      return rt.no('scope after a scoped class call')
+    gin.get_configurable('q/vw.Kreg')()
+    if world.LOG[-1] != ('Kreg', (world.DA, world.DB), {}, ['q']):
+      return rt.no('q/vw.Kreg: %r' % (world.LOG[-1],))
+    inst = gin.get_configurable('q/vw.Kmeth')()
+    if gin.current_scope() != before:
+      return rt.no('scope after a scoped class call')
+    if not _meth(inst, before):
+      return False
+    st['late'].append(('meth', inst, None))
+  return gin.current_scope() == before or rt.no('scope after the innermost action: %r, before %r' %
+                                                (gin.current_scope(), before))
+
+
+def _meth(inst, active):
+  """inst.meth() of a 'q/'-scoped class: the statement does not say whether the method runs under the
+  scope of the class reference or under the active one - either, with the matching binding."""
+  r = inst.meth()
+  ran = world.LOG[-1][3]
+  if ran == ['q']:
+    want = (8, world.DB)
+  elif ran == active:
+    want = (world.DA, world.DB)
+  else:
+    return rt.no('meth() ran under %r (active %r)' % (ran, active))
+  if r != want:
+    return rt.no('meth() under %r returned %r' % (ran, r))
+  return gin.current_scope() == active or rt.no('scope after meth(): %r, active %r' % (gin.current_scope(), active))
+
+
+def _late(st):
+  """Callables obtained inside the nest are called after it, at the root and under another scope."""
+  for kind, f, captured in st['late']:
+    for outer in (None, 'z'):
+      active = [] if outer is None else ['z']
+      n = len(world.SRC_CALLS)
+      with gin.config_scope(outer):
+        if kind == 'ref':
+          if f() != [12] or world.SRC_CALLS[n:] != [(12, ['t'])]:
+            return rt.no('@t/vw.src called later under %r: %r' % (active, world.SRC_CALLS[n:]))
+        elif kind == 'fn':
+          r = f()
+          ran = world.LOG[-1][3]
+          # captured at lookup (what get_configurable documents) or the scope active at the call
+          if ran not in (captured, active) or r != model_dflt(ran):
+            return rt.no('callable looked up under %r, called under %r: ran under %r, got %r' %
+                         (captured, active, ran, r))
+        elif not _meth(f, active):
+          return False
+        if gin.current_scope() != active:
+          return rt.no('scope after a late call under %r: %r' % (active, gin.current_scope()))
+      if gin.current_scope() != []:
+        return rt.no('scope after a late call')
+  return True
+
+
+def run_level(level, kinds, exits, depth, leaf, log, st):
+  """Enters level `level`; returns False as soon as an observation disagrees.
+
+  An exception may be caught by the level that raised it or by level 0 (st['catch_at']); in the second
+  case it crosses every scope frame in between in one throw, and each of those levels checks, while the
+  exception passes, that ITS previously active scope is back.  Failures seen while an exception is in
+  flight are kept in st['bad'] (the return value of the frames being unwound is lost)."""
   before = gin.current_scope()
   if level == depth:
-    if leaf == 1:      # a scoped configurable call replaces the scope inside, restores after
-      gin.get_configurable('q/r/vw.dflt')()
-      if world.LOG[-1][3] != ['q', 'r']:
-        return False
-    elif leaf == 2:    # an unscoped probe sees exactly the active scope
-      world.dflt()
-      if world.LOG[-1][3] != before:
-        return False
-    return gin.current_scope() == before
-  # F-choices of a level are made lazily, only when the level is reached: the
-  # body of an invalid entry never runs, so everything behind it is one path.
-  kinds[level] = rt.pick(kinds[level], 10)
-  exits[level] = rt.flag(exits[level])
-  log.append((kinds[level], exits[level]))
-  valid, inside = model_enter(before, kinds[level])
+    with rt.native():      # nothing symbolic is left in the innermost action: it runs on the plain interpreter
+      return run_leaf(leaf, before, st)
+  # F-choices of a level are made lazily, only when the level is reached (and the way of leaving only
+  # when the body got to its end): the body of an invalid entry never runs, so everything behind it is
+  # one path.
+  k = kinds[level] = rt.pick(kinds[level], NK)
+  valid, inside = model_enter(before, k)
+  entry = ENTRY[k]
+  if valid:
+    log.append(k)
+  if type(entry) is list:
+    entry = list(entry)        # the caller's own list object, a fresh one for every entry
+  x = 0
+  if not valid:
+    x = exits[level] = rt.pick(exits[level], 2) if level else 0
+    log.append((k, x))          # an invalid entry: caught here (0) or by level 0 (1)
+    st['flying'] = 'invalid'
+    st['catch_at'] = 0 if x else level
   ok = True
-  raised = None
+  caught = False
   try:
-    with gin.config_scope(ENTRY[kinds[level]]) as s:
+    with gin.config_scope(entry) as s:
       if not valid:
-        return False          # an invalid entry must not run the body
+        return rt.no('the body of an invalid entry %s ran' % KINDS[k])
       if gin.current_scope() != inside or s != inside:
-        return False
+        return rt.no('entering %s from %r gives %r (yielded %r)' % (KINDS[k], before, gin.current_scope(), s))
       if gin.current_scope_str() != '/'.join(inside):
         return False
-      ok = run_level(level + 1, kinds, exits, depth, leaf, log)
-      if gin.current_scope() != inside:
+      if not _obs(inside, st, 'inside level %d' % level):
         return False
-      if exits[level]:
+      ok = run_level(level + 1, kinds, exits, depth, leaf, log, st)
+      if gin.current_scope() != inside:
+        return rt.no('back in level %d the scope is %r, not %r' % (level, gin.current_scope(), inside))
+      x = exits[level] = rt.pick(exits[level], 3 if level else 2)
+      log.append((level, 'normal' if not x else 'raise, caught by level %d' % (level if x == 1 else 0)))
+      if x:
+        st['flying'] = 'boom'
+        st['catch_at'] = level if x == 1 else 0
         raise Boom()
-  except Boom as e:
-    raised = e
-    if not exits[level]:
+  except (Boom, ValueError, TypeError) as e:
+    fl = st['flying']
+    if fl is None or isinstance(e, Boom) != (fl == 'boom'):
+      st['bad'] = 'unexpected %r at level %d' % (e, level)
       return False
-  except ValueError:
-    if valid:
-      return False
-  if valid and exits[level] and raised is None and ok:
-    return False
+    if not valid and isinstance(e, TypeError) and k not in TYPE_ERROR_OK:
+      st['bad'] = 'entering %s raises TypeError' % KINDS[k]
+    # whatever the exception is and wherever it is going, this level's previous scope is back
+    if gin.current_scope() != before:
+      st['bad'] = 'while %r passes level %d the scope is %r, before the block it was %r' % (
+          e, level, gin.current_scope(), before)
+    else:
+      _obs(before, st, 'while an exception passes level %d' % level)
+    if st['catch_at'] != level:
+      raise
+    st['flying'] = None
+    caught = True
+  if st['bad']:
+    return rt.no(st['bad'])
+  if (not valid or x) and not caught:
+    return rt.no('level %d: the exception did not arrive' % level)
   if not ok:
     return False
-  return gin.current_scope() == before
+  if gin.current_scope() != before:
+    return rt.no('after level %d the scope is %r, before it was %r' % (level, gin.current_scope(), before))
+  return _obs(before, st, 'after level %d' % level)
 
 
 def c09_nest(depth: int, leaf: int, k0: int, k1: int, k2: int, k3: int,
-             e0: bool, e1: bool, e2: bool, e3: bool) -> bool:
+             e0: int, e1: int, e2: int, e3: int) -> bool:
   """
-  pre: 0 <= leaf < 3 and 0 <= k0 < 10 and 0 <= k1 < 10 and 0 <= k2 < 10 and 0 <= k3 < 10
+  pre: 0 <= leaf < 10 and 0 <= k0 < 16 and 0 <= k1 < 16 and 0 <= k2 < 16 and 0 <= k3 < 16
+  pre: 0 <= e0 < 3 and 0 <= e1 < 3 and 0 <= e2 < 3 and 0 <= e3 < 3
   """
-  world.fresh()
-  leaf = rt.pick(leaf, 3)
+  leaf = rt.pick(leaf, NL)
+  with rt.native():
+    _setup_world(leaf)
   kinds = [k0, k1, k2, k3]
-  exits = [e0, e1, e2, e3]
+  exits = [e0, e1, e2, e3]     # 0 leave normally, 1 exception caught by this level, 2 ... by level 0
   log = []
-  ok = run_level(0, kinds, exits, depth, leaf, log)
-  rt.sig(('nest', depth, leaf, tuple(log)), nontrivial=len(log) >= 2)
-  return ok and gin.current_scope() == [] and gin.current_scope_str() == ''
+  st = dict(bad=None, flying=None, catch_at=0, late=[])
+  try:
+    ok = run_level(0, kinds, exits, depth, leaf, log, st)
+  except Boom:
+    if depth > 0:
+      raise
+    ok = True                # depth 0: the leaf exception has no level to be caught by
+  rt.sig(('nest', depth, leaf, tuple(log)), nontrivial=len(log) >= 3)
+  if not ok or st['bad']:
+    return rt.no(st['bad'] or 'see above')
+  if gin.current_scope() != [] or gin.current_scope_str() != '':
+    return rt.no('scope after the outermost block: %r' % (gin.current_scope(),))
+  with rt.native():
+    return _late(st) and gin.current_scope() == []
 
 
 OUTER = ['', 'o', 'o/p', ['l', 'm'], None]
 INNER = ['i', 'i/j', ['k'], None, '']
+HOWS = ['inline', 'context manager created before the outer scope is entered', 'decorator on a function defined before',
+        'context manager created inside another scope', 'decorated function called twice',
+        'decorated function calling itself (3 deep)', 'one stored context manager entered twice']
+XKS = ['end of block', 'KeyboardInterrupt', 'SystemExit', 'StopIteration', 'return', 'break', 'continue']
 
 
-def c09_deferred(how: int, outer: int, inner: int) -> bool:
+def c09_deferred(how: int, outer: int, inner: int, xk: int) -> bool:
   """
-  pre: 0 <= how < 4 and 0 <= outer < 5 and 0 <= inner < 5
+  pre: 0 <= how < 7 and 0 <= outer < 5 and 0 <= inner < 5 and 0 <= xk < 7
   """
-  world.fresh()
-  how = rt.pick(how, 4)      # 0 inline, 1 context manager created BEFORE the outer scope is entered,
-  outer = rt.pick(outer, 5)  # 2 decorator on a function defined before, 3 created inside another scope
+  how = rt.pick(how, 7)      # see HOWS
+  outer = rt.pick(outer, 5)
   inner = rt.pick(inner, 5)
-  rt.sig(('deferred', how, outer, inner), nontrivial=how != 0)
+  xk = rt.pick(xk, 7)        # how the block / the decorated function is left: see XKS
+  if (how >= 4 and xk) or (how == 2 and xk in (5, 6)):
+    rt.discard()             # break / continue need a with STATEMENT; the reuse forms are left normally
+  rt.sig(('deferred', how, outer, inner, xk), nontrivial=how != 0 or xk != 0)
   with rt.native():
+    world.fresh()
     o, i = OUTER[outer], INNER[inner]
     seen = []
-    if how == 1:
+    mids = []
+    second = []
+
+    def leave():
+      if xk == 1:
+        raise KeyboardInterrupt()
+      if xk == 2:
+        raise SystemExit(3)
+      if xk == 3:
+        raise StopIteration('v')
+
+    def block(c):
+      # one `with` statement inside a helper and a loop, so that return / break / continue can leave it
+      for _ in (0,):
+        with c:
+          seen.append(gin.current_scope())
+          leave()
+          if xk == 4:
+            return 'returned'
+          if xk == 5:
+            break
+          if xk == 6:
+            continue
+          seen.append('end')
+      return 'end'
+
+    if how in (1, 6):
       cm = gin.config_scope(i)
-    elif how == 2:
+    elif how in (2, 4, 5):
       @gin.config_scope(i)
-      def decorated():
+      def decorated(n=0):
         seen.append(gin.current_scope())
+        if how == 5 and n < 2:
+          decorated(n + 1)
+          seen.append(gin.current_scope())
+        leave()
+        if xk == 4:
+          return 'returned'
+        seen.append('end')
+        return 'end'
     elif how == 3:
       with gin.config_scope('elsewhere'):
         cm = gin.config_scope(i)
 
     def body():
       base = gin.current_scope()
-      if how == 0:
-        with gin.config_scope(i):
-          seen.append(gin.current_scope())
-      elif how == 2:
-        decorated()
-      else:
-        with cm:
-          seen.append(gin.current_scope())
+      try:
+        if how == 0:
+          block(gin.config_scope(i))
+        elif how in (1, 3):
+          block(cm)
+        elif how in (2, 5):
+          decorated()
+        elif how == 4:
+          decorated()
+          mids.append(gin.current_scope())
+          decorated()
+        else:
+          block(cm)
+          mids.append(gin.current_scope())
+          try:
+            block(cm)
+            second.append('ran')
+          except Exception as e:   # contextlib refuses an exhausted generator (AttributeError / RuntimeError)
+            second.append('raised')
+      except (KeyboardInterrupt, SystemExit, StopIteration, RuntimeError):
+        seen.append('exception arrived')
       return base, gin.current_scope()
 
     if outer == 0:
@@ -134,43 +408,235 @@ def c09_deferred(how: int, outer: int, inner: int) -> bool:
     else:
       with gin.config_scope(o):
         base, after = body()
-    # the scope is composed from what is active when the block is ENTERED
-    if isinstance(i, list):
-      want = list(i)
-    elif i:
-      want = base + i.split('/')
-    else:
-      want = []
-    if seen != [want]:
-      return rt.no('inside the block the scope is %r, expected %r (creation %d, outer %r, inner %r)' %
-                   (seen, want, how, o, i))
-    return (after == base and gin.current_scope() == []) or rt.no('scope not restored')
 
+    # the scope is composed from what is active when the block is ENTERED
+    def want_from(b):
+      if isinstance(i, list):
+        return list(i)
+      if i:
+        return b + i.split('/')
+      return []
+    want = want_from(base)
+    tail = ['end'] if xk == 0 else (['exception arrived'] if xk in (1, 2, 3) else [])
+    if how < 4:
+      if seen[:1] != [want]:
+        return rt.no('inside the block the scope is %r, expected %r (%s, outer %r, inner %r)' %
+                     (seen, want, HOWS[how], o, i))
+      # the statement does not say what becomes of the exception itself; only code behind the raise must not run
+      if seen[1:] != tail and not (xk in (1, 2, 3) and seen[1:] == []):
+        return rt.no('leaving by %s: %r' % (XKS[xk], seen))
+    elif how == 4:
+      if seen != [want, 'end', want, 'end'] or mids != [base]:
+        return rt.no('decorated function called twice: %r, between the calls %r (base %r)' % (seen, mids, base))
+    elif how == 5:
+      w1 = want_from(want)
+      w2 = want_from(w1)
+      if seen != [want, w1, w2, 'end', w1, 'end', want, 'end']:
+        return rt.no('recursive decorated function: %r' % (seen,))
+    else:
+      if seen[:2] != [want, 'end'] or mids != [base]:
+        return rt.no('stored context manager, first use: %r %r' % (seen, mids))
+      # a second entry of one context-manager object is refused by contextlib; the statement only asks that
+      # the scope is what it was - (or, had it been accepted, that it behaved like the first)
+      if second == ['raised']:
+        if seen[2:] != []:
+          return rt.no('stored context manager, refused second use ran the body: %r' % (seen,))
+      elif seen[2:] != [want, 'end']:
+        return rt.no('stored context manager, second use: %r' % (seen,))
+    return (after == base and gin.current_scope() == []) or rt.no(
+        'scope not restored: %r after the block, %r before it, %r at the end' % (after, base, gin.current_scope()))
+
+
+FIRST = ["'a/b' at the root", "'c' under 'o'", "the caller's own list ['x', 'y']", 'None']
+MODES = ['re-entered alone', "re-entered, a named scope 'w' inside it, re-entered again",
+         'the same list object entered at two depths']
+MUTS = ['not mutated', "append('z') while active", 'clear() while active']
+
+
+def c09_capture(first: int, outer: int, mode: int, mut: int) -> bool:
+  """
+  pre: 0 <= first < 4 and 0 <= outer < 5 and 0 <= mode < 3 and 0 <= mut < 3
+  """
+  first = rt.pick(first, 4)
+  outer = rt.pick(outer, 5)
+  mode = rt.pick(mode, 3)
+  mut = rt.pick(mut, 3)
+  rt.sig(('capture', first, outer, mode, mut), nontrivial=True)
+  with rt.native():
+    world.fresh()
+    # 1. capture: `with config_scope(...) as s` yields the resulting scope
+    if first == 0:
+      with gin.config_scope('a/b') as s:
+        pass
+      s0 = ['a', 'b']
+    elif first == 1:
+      with gin.config_scope('o'):
+        with gin.config_scope('c') as s:
+          pass
+      s0 = ['o', 'c']
+    elif first == 2:
+      with gin.config_scope(['x', 'y']) as s:
+        pass
+      s0 = ['x', 'y']
+    else:
+      with gin.config_scope(None) as s:
+        pass
+      s0 = []
+    if s != s0 or gin.current_scope() != []:
+      return rt.no('captured %r, expected %r' % (s, s0))
+    o = OUTER[outer]
+    notes = []
+
+    def mutate():
+      if mut == 1:
+        s.append('z')
+      elif mut == 2:
+        s.clear()
+
+    def active(suffix, exact):
+      """The scope must be s0 + suffix.  Once the CALLER has changed the list it handed in, the list as it is
+      now is accepted as well (aliasing of the caller's own object: the statement does not speak about it)."""
+      cur = gin.current_scope()
+      if cur == s0 + suffix:
+        return True
+      if not exact and cur == list(s) + suffix:
+        notes.append('aliased')
+        return True
+      return rt.no('scope %r, expected %r + %r (the list is now %r)' % (cur, s0, suffix, s))
+
+    def body():
+      base = gin.current_scope()
+      with gin.config_scope(s) as t:          # an explicit list REPLACES the active scope
+        if t != s0 or not active([], True):
+          return rt.no('re-entering %r under %r gives %r (yielded %r)' % (s0, base, gin.current_scope(), t))
+        if mode == 0:
+          mutate()
+          if not active([], mut == 0):
+            return False
+        elif mode == 1:
+          with gin.config_scope('w') as u:
+            if u != s0 + ['w'] or not active(['w'], True):
+              return rt.no("'w' inside the re-entered scope: %r" % (u,))
+            mutate()
+          # entering 'w' must not have extended the caller's list
+          if mut == 0 and s != s0:
+            return rt.no("the captured list was changed by entering 'w' inside it: %r" % (s,))
+          if not active([], mut == 0):
+            return False
+          with gin.config_scope(s):
+            if not active([], mut == 0):
+              return False
+          if not active([], mut == 0):
+            return False
+        else:
+          with gin.config_scope(s) as t2:
+            if not active([], True):
+              return False
+            mutate()
+            if not active([], mut == 0):
+              return False
+          if not active([], mut == 0):
+            return False
+      # frames that are not the caller's list are restored exactly, mutated or not
+      if gin.current_scope() != base:
+        return rt.no('after the re-entered block the scope is %r, before it was %r' % (gin.current_scope(), base))
+      return True
+
+    if outer == 0:
+      ok = body()
+    else:
+      with gin.config_scope(o):
+        ok = body()
+    return ok and (gin.current_scope() == [] or rt.no('scope at the end %r' % (gin.current_scope(),)))
+
+
+_NEST_ANCHORS = ['gin.config:config_scope', 'gin.config:enter_scope', 'gin.config:exit_scope',
+                 'gin.config:_decorate_with_scope']
+_KIND_BOUNDS = ('16 entry kinds per level (name, a/b shorthand, dotted name, list, None, empty string, empty list; 9 invalid: '
+                'bad identifier, non-string, list with a bad member, trailing slash, list with a non-string member (int / None: '
+                'TypeError from the validation, after the push), list member with a slash, tuple, bytes); every valid level is '
+                'left normally, by an exception caught by that level, or by an exception caught by level 0 (one throw through '
+                'every frame in between); the error of an invalid entry is caught by its own level or by level 0; the unscoped '
+                'probe dflt() is called inside every level, after every exit and while an exception passes, and must return the '
+                'bindings of a/, a/b/, x/, a.b/ and the root that the reference model gives for the active scope')
 
 HARNESSES = {
     'c09_deferred': dict(
         fn='c09_deferred',
         anchors=['gin.config:config_scope'],
-        smoke=[dict(how=1, outer=1, inner=0), dict(how=2, outer=2, inner=1)],
-        tiers={'quick': dict(split=dict(how=[0, 1, 2, 3]), budget_s=60),
-               'thorough': dict(split=dict(how=[0, 1, 2, 3]), budget_s=60)},
+        smoke=[dict(how=1, outer=1, inner=0, xk=0), dict(how=2, outer=2, inner=1, xk=0),
+               dict(how=4, outer=1, inner=0, xk=0), dict(how=5, outer=3, inner=1, xk=0),
+               dict(how=6, outer=2, inner=2, xk=0), dict(how=0, outer=1, inner=0, xk=1),
+               dict(how=1, outer=2, inner=1, xk=2), dict(how=2, outer=1, inner=0, xk=3),
+               dict(how=3, outer=1, inner=3, xk=4), dict(how=0, outer=4, inner=0, xk=5),
+               dict(how=1, outer=3, inner=4, xk=6)],
+        tiers={'quick': dict(split=dict(how=[0, 1, 2, 3, 4, 5, 6]), budget_s=90),
+               'thorough': dict(split=dict(how=[0, 1, 2, 3, 4, 5, 6]), budget_s=90)},
         bounds='config_scope used inline / as a context manager created before (or inside another scope than) the place '
-               'where it is entered / as a decorator, x 5 outer scopes x 5 inner scope arguments'),
+               'where it is entered / as a decorator / as a decorator called twice / as a decorator on a function that '
+               'calls itself 3 deep / as one stored context manager entered twice, x 5 outer scopes x 5 inner scope '
+               'arguments; the first four forms are left in 7 ways: end of block, KeyboardInterrupt, SystemExit, '
+               'StopIteration, return, break, continue'),
+    'c09_capture': dict(
+        fn='c09_capture',
+        anchors=['gin.config:config_scope', 'gin.config:enter_scope', 'gin.config:exit_scope'],
+        smoke=[dict(first=0, outer=1, mode=0, mut=0), dict(first=1, outer=3, mode=1, mut=0),
+               dict(first=2, outer=2, mode=2, mut=1), dict(first=3, outer=0, mode=1, mut=2)],
+        tiers={'quick': dict(split=dict(first=[0, 1, 2, 3]), budget_s=90),
+               'thorough': dict(split=dict(first=[0, 1, 2, 3]), budget_s=90)},
+        bounds="a scope list captured with `as s` (from 'a/b', from 'c' under 'o', from the caller's own list, from None) "
+               "is entered again under 5 outer scopes: alone / with a named scope inside it and once more / at two depths "
+               "at once; the caller leaves the list alone, appends to it or clears it while it is active (then both the "
+               "old and the new contents are accepted for the frames that ARE that list; every other frame is exact)"),
     'c09_nest': dict(
         fn='c09_nest',
-        anchors=['gin.config:config_scope', 'gin.config:enter_scope', 'gin.config:exit_scope',
-                 'gin.config:_decorate_with_scope'],
-        smoke=[dict(depth=3, leaf=1, k0=0, k1=2, k2=1, k3=0, e0=True, e1=False, e2=False, e3=False),
-               dict(depth=3, leaf=2, k0=1, k1=3, k2=0, k3=0, e0=False, e1=True, e2=True, e3=False)],
-        tiers={'quick': dict(split=dict(k0=list(range(10)), leaf=[0, 1, 2]),
-                             fixed=dict(depth=3, k3=0, e3=False), budget_s=100),
-               'thorough': dict(split=dict(k0=list(range(10)), k1=list(range(10)), leaf=[0, 1, 2]),
+        anchors=_NEST_ANCHORS,
+        smoke=[dict(depth=3, leaf=1, k0=0, k1=2, k2=1, k3=0, e0=1, e1=0, e2=0, e3=0),
+               dict(depth=3, leaf=2, k0=1, k1=3, k2=0, k3=0, e0=0, e1=1, e2=1, e3=0),
+               dict(depth=3, leaf=2, k0=0, k1=1, k2=10, k3=0, e0=0, e1=0, e2=2, e3=0),
+               dict(depth=3, leaf=0, k0=2, k1=0, k2=11, k3=0, e0=0, e1=0, e2=1, e3=0),
+               dict(depth=3, leaf=0, k0=10, k1=4, k2=12, k3=0, e0=0, e1=2, e2=0, e3=0),
+               dict(depth=3, leaf=2, k0=0, k1=13, k2=0, k3=0, e0=0, e1=1, e2=0, e3=0),
+               dict(depth=3, leaf=0, k0=1, k1=14, k2=0, k3=0, e0=0, e1=0, e2=0, e3=0),
+               dict(depth=3, leaf=0, k0=9, k1=0, k2=15, k3=0, e0=1, e1=1, e2=1, e3=0)],
+        # e0 (how level 0 is left: the last choice of a path) is split as well: it halves a partition
+        tiers={'quick': dict(split=dict(k0=list(range(NK)), leaf=[0, 1, 2], e0=[0, 1]),
+                             fixed=dict(depth=3, k3=0, e3=0), budget_s=200),
+               'thorough': dict(split=dict(k0=list(range(NK)), k1=list(range(NK)), leaf=[0, 1, 2]),
                                 fixed=dict(depth=4), budget_s=900)},
-        bounds='nesting depth 3 (quick) / 4 (thorough); 10 entry kinds per level (name, a/b shorthand, list, '
-               'None, empty string, empty list, 4 invalid: bad identifier, non-string, list with a bad member, '
-               'trailing slash); each level left normally or by an exception; innermost action: none / scoped '
-               'get_configurable call / unscoped probe'),
+        bounds='nesting depth 3 (quick) / 4 (thorough); ' + _KIND_BOUNDS + '; innermost action: none / scoped '
+               'get_configurable call (scope and value) / unscoped probe + get_bindings with and without inheritance'),
+    'c09_leaves': dict(
+        fn='c09_nest',
+        anchors=_NEST_ANCHORS,
+        smoke=[dict(depth=2, leaf=3, k0=0, k1=2, k2=0, k3=0, e0=0, e1=1, e2=0, e3=0),
+               dict(depth=2, leaf=4, k0=1, k1=0, k2=0, k3=0, e0=1, e1=0, e2=0, e3=0),
+               dict(depth=2, leaf=5, k0=2, k1=0, k2=0, k3=0, e0=0, e1=0, e2=0, e3=0),
+               dict(depth=2, leaf=6, k0=0, k1=2, k2=0, k3=0, e0=0, e1=2, e2=0, e3=0),
+               dict(depth=2, leaf=7, k0=2, k1=9, k2=0, k3=0, e0=0, e1=0, e2=0, e3=0),
+               dict(depth=2, leaf=8, k0=0, k1=1, k2=0, k3=0, e0=0, e1=0, e2=0, e3=0),
+               dict(depth=2, leaf=9, k0=10, k1=2, k2=0, k3=0, e0=1, e1=0, e2=0, e3=0)],
+        tiers={'quick': dict(split=dict(leaf=[3, 4, 5, 6, 7, 8, 9]),
+                             fixed=dict(depth=2, k2=0, k3=0, e2=0, e3=0), budget_s=200),
+               'thorough': dict(split=dict(k0=list(range(NK)), leaf=[3, 4, 5, 6, 7, 8, 9]),
+                                fixed=dict(depth=3, k3=0, e3=0), budget_s=400)},
+        bounds='the same nest, depth 2 (quick) / 3 (thorough), with 7 more innermost actions: an exception born inside a '
+               'scoped get_configurable call / inside outer2 -> deep/ -> outer1 -> boom, caught at once; the same caught '
+               'by level 0; cons() fed by @q/r/vw.src() and by the unevaluated @t/vw.src (called there, and after the '
+               'nest at the root and under z/); cons() fed by a %macro and a %constant; get_configurable(function) and '
+               "get_configurable('vw.dflt') looked up under the nest and called there and later (captured or active "
+               "scope accepted later); scoped classes 'q/vw.Kinit', 'q/vw.Kreg' and a 'q/vw.Kmeth' instance whose "
+               'meth() runs there and later (scope of the reference or active scope accepted)'),
 }
+
+OUTSIDE = ('exits that are not nested (a generator suspended inside a scope and closed later, ExitStack / __enter__ and '
+           '__exit__ called out of order, asyncio tasks sharing a thread): the quantifier speaks of nested entries; '
+           'scope names longer than the listed ones; more than 4 levels')
+ASSUMPTIONS = ['c09_nest: the entries and exits of the nest run traced; the probe dflt() that observes the bindings, the '
+               'innermost action and the late calls run natively (nothing symbolic reaches them); c09_deferred and '
+               'c09_capture run natively after their F-choices (the solver certifies that the choice space is covered)',
+               "a list the CALLER mutates while it is the active scope is the caller's own aliasing: both contents are "
+               'accepted (observed: gin pushes the list object itself, so the mutation shows at once)']
 
 
 # ---------------------------------------------------------------------------------------------
@@ -184,14 +650,33 @@ import sys as _sys
 _ROOT = _os.path.dirname(_os.path.dirname(_os.path.dirname(_os.path.abspath(__file__))))
 
 
+_SHARED = {}     # objects built by setup() that several threads use at once
+_KEEP = []       # a scope the MAIN thread is inside while the threads are started (scenario e)
+
+
 def _setup_threads():
+  while _KEEP:
+    try:
+      _KEEP.pop().__exit__(None, None, None)
+    except Exception:
+      pass
   world.fresh()
   gin.parse_config(['a/vw.dflt.a = 1', 'b/vw.dflt.a = 2', 'a/x/vw.dflt.b = 3'])
+  _SHARED['f'] = gin.get_configurable('a/vw.dflt')     # one scoped callable: one scope_components list
+  _SHARED['L'] = ['b']                                 # one list object handed to config_scope by two threads
+
+
+def _setup_inside_p():
+  """The threads are started while the main thread is inside `with config_scope('p')`."""
+  _setup_threads()
+  cm = gin.config_scope('p')
+  cm.__enter__()
+  _KEEP.append(cm)
 
 
 def _nest_program(outer, inner, raises):
   def prog():
-    seen = []
+    seen = [gin.current_scope()]                 # a new thread starts at the root, wherever it was started from
     try:
       with gin.config_scope(outer):
         seen.append(gin.current_scope())
@@ -208,36 +693,124 @@ def _nest_program(outer, inner, raises):
   return prog
 
 
+def _probe_program(outer, inner):
+  """(a) dflt() inside the inner scope (where a/x binds b) and after each exit."""
+  def prog():
+    seen = [(gin.current_scope(), world.dflt())]
+    with gin.config_scope(outer):
+      seen.append((gin.current_scope(), world.dflt()))
+      with gin.config_scope(inner):
+        seen.append((gin.current_scope(), world.dflt()))
+      seen.append((gin.current_scope(), world.dflt()))
+    seen.append((gin.current_scope(), world.dflt()))
+    return seen
+  return prog
+
+
+def _reject_program(outer, entries):
+  """(b) invalid names (push, validate, pop) and the clearing entries None / '' / []."""
+  def prog():
+    seen = []
+    with gin.config_scope(outer):
+      for e in entries:
+        try:
+          with gin.config_scope(list(e) if isinstance(e, list) else e):
+            seen.append((gin.current_scope(), world.dflt()[0]))
+        except ValueError:
+          seen.append('rejected')
+        seen.append((gin.current_scope(), world.dflt()[0]))
+    seen.append(gin.current_scope())
+    return seen
+  return prog
+
+
+def _shared_callable_program(outer):
+  """(c) both threads call ONE scoped callable built in setup."""
+  def prog():
+    f = _SHARED['f']
+    seen = []
+    with gin.config_scope(outer):
+      seen.append(f())                            # runs under a/ whatever this thread has active
+      seen.append((gin.current_scope(), world.dflt()))
+    seen.append(f())
+    seen.append(gin.current_scope())
+    return seen
+  return prog
+
+
+def _shared_list_program(inner):
+  """(d) both threads hand the SAME list object to config_scope."""
+  def prog():
+    lst = _SHARED['L']
+    seen = []
+    with gin.config_scope(lst):
+      seen.append((gin.current_scope(), world.dflt()))
+      with gin.config_scope(inner):
+        seen.append((gin.current_scope(), world.dflt()))
+      seen.append(gin.current_scope())
+    seen.append((gin.current_scope(), list(lst)))
+    return seen
+  return prog
+
+
 def thread_scenarios(tier):
-  out = [('scopes: a/x | b/y(raises)', [_nest_program('a', 'x', False), _nest_program('b', 'y', True)]),
+  """(name, programs, setup); the first two are the scenarios of the first version (same indices)."""
+  out = [('scopes: a/x | b/y(raises)', [_nest_program('a', 'x', False), _nest_program('b', 'y', True)], _setup_threads),
          ('scopes: a/x | a/x | b(list)', [_nest_program('a', 'x', False), _nest_program('a', 'x', False),
-                                          _nest_program(['b'], 'z', False)][:3 if tier == 'thorough' else 2])]
+                                          _nest_program(['b'], 'z', False)][:3 if tier == 'thorough' else 2],
+          _setup_threads),
+         ('bindings: a/x probes | b/y probes', [_probe_program('a', 'x'), _probe_program('b', 'y')], _setup_threads),
+         ("rejected and clearing entries: a > 1bad,None,'',[] | b > [],'a/',None",
+          [_reject_program('a', ['1bad', None, '', []]), _reject_program('b', [[], 'a/', None])], _setup_threads),
+         ('one shared scoped callable a/vw.dflt: under b | under c/d',
+          [_shared_callable_program('b'), _shared_callable_program('c/d')], _setup_threads),
+         ("one shared list object ['b']: > y | > z", [_shared_list_program('y'), _shared_list_program('z')],
+          _setup_threads),
+         ("threads started while the main thread is inside p/: a/x probes | b/y(raises)",
+          [_probe_program('a', 'x'), _nest_program('b', 'y', True)], _setup_inside_p)]
+  if tier == 'thorough':
+    out.append(('three threads: a/x probes | rejected entries under a | shared callable under b',
+                [_probe_program('a', 'x'), _reject_program('a', ['1bad', None]), _shared_callable_program('b')],
+                _setup_threads))
   return out
 
 
-def _check_threads(solo):
+def _reference(programs):
+  """What each program observes when it runs alone on the main thread from the plain setup: the scope and
+  the bindings a thread observes must not depend on other threads NOR on where the thread was started."""
+  ref = []
+  for p in programs:
+    _setup_threads()
+    ref.append(p())
+  _setup_threads()
+  return ref
+
+
+def _check_threads(solo, ref=None):
   def check(results, final):
     for i, r in enumerate(results):
       if r is None or r[0] == 'exc':
         return 'thread %d failed: %r' % (i, r)
       if solo[0] is not None and r[1] != solo[0][i]:
         return 'thread %d observed %r; alone it observes %r' % (i, r[1], solo[0][i])
+      if ref is not None and r[1] != ref[i]:
+        return 'thread %d observed %r; the same calls on the main thread observe %r' % (i, r[1], ref[i])
     return None
   return check
 
 
 def c09_forced(tier: str, scenario: int, schedule: str, shared: str) -> bool:
   from vf.sched import driver
-  name, programs = thread_scenarios(tier)[scenario]
+  name, programs, setup = thread_scenarios(tier)[scenario]
   # solo observations first (each program alone)
-  solo = []
-  for p in programs:
-    _setup_threads()
-    solo.append(p())
+  solo = _reference(programs)
   sched = [int(x) for x in schedule.split(',') if x != '']
-  traces, results, errors, final, names = driver.run(programs, _setup_threads, 'forced', sched,
-                                                     list(range(len(programs))), set(shared.split('|')))
-  v = _check_threads([solo])(results, final)
+  try:
+    traces, results, errors, final, names = driver.run(programs, setup, 'forced', sched,
+                                                       list(range(len(programs))), set(shared.split('|')))
+  finally:
+    _setup_threads()
+  v = _check_threads([solo], solo)(results, final)
   if v and _os.environ.get('VERIF_EXPLAIN'):
     _sys.stderr.write('FAIL: %s\n' % v)
   return v is None
@@ -249,13 +822,14 @@ def engine_s_main(tier, seed):
   t0 = time.time()
   cov = dict(states=0, queries=0, solver_s=0.0, replayed=0, samples=[], sigs={}, exhaustive=True, scenarios=[])
   violations, infra = [], []
-  for idx, (name, programs) in enumerate(thread_scenarios(tier)):
+  for idx, (name, programs, setup) in enumerate(thread_scenarios(tier)):
     solo = [None]
-    scen = driver.Scenario(name, programs, _setup_threads, lambda m, s: driver.standard_queries(m, s),
-                           _check_threads(solo))
+    ref = _reference(programs)
+    scen = driver.Scenario(name, programs, setup, lambda m, s: driver.standard_queries(m, s),
+                           _check_threads(solo, ref))
     # the sequential run gives every thread's solo observations
     driver.LIST_INIT.clear()
-    traces, results, errors, final, names = driver.run(programs, _setup_threads, 'solo')
+    traces, results, errors, final, names = driver.run(programs, setup, 'solo')
     solo[0] = [r[1] for r in results]
     try:
       vs, exhaustive = scen.solve()
@@ -263,6 +837,8 @@ def engine_s_main(tier, seed):
       import traceback
       infra.append('%s: %s' % (name, traceback.format_exc()[-800:]))
       continue
+    finally:
+      _setup_threads()
     cov['states'] += max(scen.stats['states'], 1)
     cov['queries'] += max(scen.stats['queries'], 1)
     cov['solver_s'] += scen.stats['solver_s']
